@@ -43,11 +43,20 @@ def spec(entry, pkg=WIRE_PKG, overlay='harness/wire', interp=None, init=None, pa
                 label=label or entry, extra_overlay=extra_overlay or {}, replayable=replayable, solver=solver)
 
 
+def overlay_dirs(ov):
+    if isinstance(ov, str):
+        ov = [ov]
+    return [d if os.path.isabs(d) else os.path.join(VERIF, d) for d in ov]
+
+
 def run_gosym(pid, sp, idx):
     exe = ensure_engine()
     out = os.path.join(workdir(pid), 'run_%d_%s.json' % (idx, sp['entry']))
-    cmd = [exe, '-repo', REPO, '-pkg', sp['pkg'], '-overlay', os.path.join(VERIF, sp['overlay']),
-           '-entry', sp['entry'], '-out', out, '-deadline', sp['deadline'], '-solver', sp['solver']]
+    if sp.get('pre'):
+        sp['pre'](pid, sp)
+    cmd = [exe, '-repo', REPO, '-pkg', sp['pkg'], '-entry', sp['entry'], '-out', out, '-deadline', sp['deadline'], '-solver', sp['solver']]
+    for od in overlay_dirs(sp['overlay']):
+        cmd += ['-overlay', od]
     for d, target in sp.get('overlay2') or []:
         cmd += ['-overlay', '%s=>%s' % (os.path.join(VERIF, d), target)]
     if sp['interp']:
@@ -87,20 +96,20 @@ _replay_bin = {}
 
 def build_replay_binary(pid, pkg, overlay, overlay2=()):
     """go test -c of the package with the harness (native runtime) overlaid."""
-    key = (pkg, overlay, tuple(overlay2))
+    key = (pkg, str(overlay), tuple(overlay2))
     if key in _replay_bin:
         return _replay_bin[key]
     wd = workdir(pid)
     pkgdir = os.path.join(REPO, PKG_DIR[pkg])
-    src = os.path.join(VERIF, overlay)
     ov = {}
     entries = []
-    for f in sorted(os.listdir(src)):
-        if not f.endswith('.go') or f.endswith('_engine.go'):
-            continue
-        ov[os.path.join(pkgdir, 'zz_verif_' + f)] = os.path.join(src, f)
-        txt = open(os.path.join(src, f)).read()
-        entries += re.findall(r'^func (H_\w+)\(\)', txt, re.M)
+    for src in overlay_dirs(overlay):
+        for f in sorted(os.listdir(src)):
+            if not f.endswith('.go') or f.endswith('_engine.go'):
+                continue
+            ov[os.path.join(pkgdir, 'zz_verif_' + f)] = os.path.join(src, f)
+            txt = open(os.path.join(src, f)).read()
+            entries += re.findall(r'^func (H_\w+)\(\)', txt, re.M)
     for d2, target in overlay2:
         src2 = os.path.join(VERIF, d2)
         for f in sorted(os.listdir(src2)):
@@ -136,7 +145,7 @@ def replay_native(pid, sp, model, tape_path=None):
     wd = workdir(pid)
     if tape_path is None:
         tape_path = os.path.join(wd, 'tape_tmp.json')
-    json.dump({'model': model, 'entry': sp['entry'], 'params': sp['params'], 'pkg': sp['pkg'], 'overlay': sp['overlay']},
+    json.dump({'model': model, 'entry': sp['entry'], 'params': sp['params'], 'pkg': sp['pkg'], 'overlay': sp['overlay'] if isinstance(sp['overlay'], str) else list(sp['overlay'])},
               open(tape_path, 'w'), indent=1, sort_keys=True)
     env = dict(GOENV, VERIF_ENTRY=sp['entry'], VERIF_REPLAY=tape_path,
                VERIF_PARAMS=','.join('%s=%d' % kv for kv in sp['params'].items()))
